@@ -7,8 +7,11 @@ import time
 
 from .common import VERIF_ROOT, digest, log, seed
 
-EVIDENCE_DIR = os.path.join(VERIF_ROOT, 'evidence')
-REPLAY_DIR = os.path.join(VERIF_ROOT, 'replays')
+# DOSMC_OUT_DIR redirects evidence and replay files (used when trying seeded defects, so that the committed
+# evidence of the unchanged tree is not overwritten)
+_OUT = os.environ.get('DOSMC_OUT_DIR') or VERIF_ROOT
+EVIDENCE_DIR = os.path.join(_OUT, 'evidence')
+REPLAY_DIR = os.path.join(_OUT, 'replays')
 KNOWN_FINDINGS = os.path.join(VERIF_ROOT, 'known_findings.json')
 
 
